@@ -96,13 +96,15 @@ Section Run.
     w_lrsn (fst (step rsize usize w o)) = w_lrsn w \/
     (w_lrsn (fst (step rsize usize w o)) = u64 (w_lrsn w + 1) /\
      exists consumer, rs_ref (snd (step rsize usize w o)) = session_suffix consumer (w_lrsn w) /\
-                      rs_status (snd (step rsize usize w o)) = 201).
+                      rs_status (snd (step rsize usize w o)) = 201) \/
+    (exists n, o = Elapse n /\ w_lrsn (fst (step rsize usize w o)) = u64 (w_lrsn w + Z.max 0 n) /\
+               rs_status (snd (step rsize usize w o)) = 0).
   Proof.
-    destruct o as [r|ref r|ref r|supi rg|supi rg a]; cbn [step].
+    destruct o as [r|ref r|ref r|supi rg|supi rg a|n]; cbn [step].
     - unfold do_create. destruct (r_consumer r) as [c|]; [|left; reflexivity].
       destruct (match find_ue (w_ues w) (r_supi r) with Some _ => false | None => negb (r_supi_ok r) end);
         [left; reflexivity|].
-      right. cbn [fst snd w_lrsn rs_ref rs_status]. split; [reflexivity|]. exists c. split; reflexivity.
+      right; left. cbn [fst snd w_lrsn rs_ref rs_status]. split; [reflexivity|]. exists c. split; reflexivity.
     - left. unfold do_update. destruct (find_ue (w_ues w) (r_supi r)) as [u|]; [|reflexivity].
       destruct (cdr_find (u_cdr u) ref) as [idx|]; [|reflexivity].
       destruct (nth_error (u_records u) idx) as [rec|]; [|reflexivity].
@@ -114,6 +116,28 @@ Section Run.
       destruct (charge_request (w_db w) u r) as [[[d' u1] muis] partial]. reflexivity.
     - left. unfold do_recharge. destruct (find_ue (w_ues w) supi); reflexivity.
     - left. unfold do_credit. destruct (lookup (w_db w) supi rg); reflexivity.
+    - right; right. exists n. repeat split.
+  Qed.
+
+  (* how far one operation can advance the record counter *)
+  Definition weight (o : op) : Z := match o with Elapse n => Z.max 0 n | _ => 1 end.
+  Definition span (ops : list op) : Z := fold_right (fun o a => weight o + a) 0 ops.
+  Lemma weight_nonneg o : 0 <= weight o.  Proof. destruct o; cbn; lia. Qed.
+  Lemma span_nonneg ops : 0 <= span ops.
+  Proof. induction ops as [|o ops IH]; cbn [span fold_right]; [lia|]. pose proof (weight_nonneg o). fold (span ops). lia. Qed.
+
+  Lemma step_advance w o w' rs :
+    step rsize usize w o = (w', rs) -> 0 <= w_lrsn w -> w_lrsn w + weight o < 2 ^ 64 ->
+    w_lrsn w <= w_lrsn w' <= w_lrsn w + weight o.
+  Proof.
+    intros Es H0 Hb. pose proof (step_lrsn w o) as Hs. rewrite Es in Hs. cbn [fst snd] in Hs.
+    pose proof (weight_nonneg o) as Hw.
+    destruct Hs as [Hs|[[Hs [c [_ E201]]]|[n [-> [Hs _]]]]].
+    - rewrite Hs. lia.
+    - assert (weight o = 1) as Hw1.
+      { destruct o; try reflexivity. cbn [step snd rs_status] in Es. inversion Es; subst. discriminate. }
+      rewrite Hs. unfold u64. rewrite Z.mod_small by lia. lia.
+    - rewrite Hs. cbn [weight] in *. unfold u64. rewrite Z.mod_small by lia. lia.
   Qed.
 
   (* references handed out by the creates of a run, with the counter they used *)
@@ -125,50 +149,15 @@ Section Run.
       (if rs_status rs =? 201 then [(rs_ref rs, w_lrsn w)] else []) ++ created w' r
     end.
 
-  Lemma created_counters : forall ops w e,
-    0 <= w_lrsn w -> w_lrsn w + Z.of_nat (length ops) < 2 ^ 64 ->
-    In e (created w ops) ->
-    w_lrsn w <= snd e < w_lrsn w + Z.of_nat (length ops) /\ exists c, fst e = session_suffix c (snd e).
-  Proof.
-    induction ops as [|o ops IH]; intros w e H0 Hb Hin; [contradiction|].
-    cbn [created] in Hin. cbn [length] in Hb.
-    pose proof (step_lrsn w o) as Hs.
-    destruct (step rsize usize w o) as [w' rs] eqn:Es. cbn [fst snd] in Hs.
-    apply in_app_or in Hin. destruct Hin as [Hin|Hin].
-    - destruct (rs_status rs =? 201) eqn:E201; [|contradiction].
-      destruct Hin as [<-|[]]. cbn [fst snd]. split; [cbn [length]; lia|].
-      destruct Hs as [Hs|[_ [c [Hc _]]]].
-      + (* a 201 answer only comes from a create, which advances the counter *)
-        exfalso. clear IH. destruct o as [r|ref r|ref r|supi rg|supi rg a]; cbn [step] in Es.
-        * unfold do_create in Es. destruct (r_consumer r); [|inversion Es; subst; discriminate].
-          destruct (match find_ue (w_ues w) (r_supi r) with Some _ => false | None => negb (r_supi_ok r) end);
-            inversion Es; subst; try discriminate. cbn [w_lrsn] in Hs. unfold u64 in Hs. lia.
-        * unfold do_update in Es. destruct (find_ue (w_ues w) (r_supi r)) as [u|]; [|inversion Es; subst; discriminate].
-          destruct (cdr_find (u_cdr u) ref) as [idx|]; [|inversion Es; subst; discriminate].
-          destruct (nth_error (u_records u) idx) as [rec|]; [|inversion Es; subst; discriminate].
-          destruct (charge_request (w_db w) u r) as [[[d' u1] muis] partial].
-          destruct (rsize rec + _ >? 65535); inversion Es; subst; discriminate.
-        * unfold do_release in Es. destruct (find_ue (w_ues w) (r_supi r)) as [u|]; [|inversion Es; subst; discriminate].
-          destruct (cdr_find (u_cdr u) ref) as [idx|]; [|inversion Es; subst; discriminate].
-          destruct (nth_error (u_records u) idx) as [rec|]; [|inversion Es; subst; discriminate].
-          destruct (charge_request (w_db w) u r) as [[[d' u1] muis] partial]. inversion Es; subst; discriminate.
-        * unfold do_recharge in Es. destruct (find_ue (w_ues w) supi); inversion Es; subst; discriminate.
-        * unfold do_credit in Es. destruct (lookup (w_db w) supi rg); inversion Es; subst; discriminate.
-      + exists c. exact Hc.
-    - assert (Hl : w_lrsn w <= w_lrsn w' <= w_lrsn w + 1).
-      { destruct Hs as [Hs|[Hs _]]; rewrite Hs; unfold u64; lia. }
-      destruct (IH w' e ltac:(lia) ltac:(lia) Hin) as [[A B] C].
-      split; [cbn [length]; lia | exact C].
-  Qed.
-
+  (* a 201 answer only comes from a create, which advances the counter by one *)
   Lemma created_head_counter : forall o w w' rs,
     step rsize usize w o = (w', rs) -> rs_status rs = 201 ->
     0 <= w_lrsn w < 2 ^ 64 - 1 ->
-    w_lrsn w' = w_lrsn w + 1 /\ exists c, rs_ref rs = session_suffix c (w_lrsn w).
+    w_lrsn w' = w_lrsn w + 1 /\ weight o = 1 /\ exists c, rs_ref rs = session_suffix c (w_lrsn w).
   Proof.
     intros o w w' rs Es E201 Hb. pose proof (step_lrsn w o) as Hs. rewrite Es in Hs. cbn [fst snd] in Hs.
-    destruct Hs as [Hs|[Hs [c [Hc _]]]].
-    - exfalso. destruct o as [r|ref r|ref r|supi rg|supi rg a]; cbn [step] in Es.
+    destruct Hs as [Hs|[[Hs [c [Hc _]]]|[n [-> [_ Hz]]]]].
+    - exfalso. destruct o as [r|ref r|ref r|supi rg|supi rg a|n]; cbn [step] in Es.
       + unfold do_create in Es. destruct (r_consumer r); [|inversion Es; subst; discriminate].
         destruct (match find_ue (w_ues w) (r_supi r) with Some _ => false | None => negb (r_supi_ok r) end);
           inversion Es; subst; try discriminate. cbn [w_lrsn] in Hs. unfold u64 in Hs. lia.
@@ -183,24 +172,52 @@ Section Run.
         destruct (charge_request (w_db w) u r) as [[[d' u1] muis] partial]. inversion Es; subst; discriminate.
       + unfold do_recharge in Es. destruct (find_ue (w_ues w) supi); inversion Es; subst; discriminate.
       + unfold do_credit in Es. destruct (lookup (w_db w) supi rg); inversion Es; subst; discriminate.
-    - split; [rewrite Hs; unfold u64; lia | exists c; exact Hc].
+      + inversion Es; subst; discriminate.
+    - split; [rewrite Hs; unfold u64; lia|]. split; [|exists c; exact Hc].
+      destruct o; try reflexivity. cbn [step] in Es. inversion Es; subst. discriminate.
+    - rewrite Hz in E201. discriminate.
+  Qed.
+
+  Lemma created_counters : forall ops w e,
+    0 <= w_lrsn w -> w_lrsn w + span ops < 2 ^ 64 ->
+    In e (created w ops) ->
+    w_lrsn w <= snd e < w_lrsn w + span ops /\ exists c, fst e = session_suffix c (snd e).
+  Proof.
+    induction ops as [|o ops IH]; intros w e H0 Hb Hin; [contradiction|].
+    cbn [created] in Hin. cbn [span fold_right] in Hb |- *. fold (span ops) in Hb |- *.
+    pose proof (span_nonneg ops) as Hsp. pose proof (weight_nonneg o) as Hw.
+    destruct (step rsize usize w o) as [w' rs] eqn:Es.
+    pose proof (step_advance w o w' rs Es H0 ltac:(lia)) as Hl.
+    apply in_app_or in Hin. destruct Hin as [Hin|Hin].
+    - destruct (rs_status rs =? 201) eqn:E201; [|contradiction].
+      destruct Hin as [<-|[]]. cbn [fst snd].
+      destruct (created_head_counter o w w' rs Es ltac:(lia)) as [Hn [Hw1 [c Hc]]].
+      { destruct (Z.eq_dec (weight o) 0) as [Hz|Hz]; [|lia].
+        (* weight 0 is an Elapse, which never answers 201 *)
+        destruct o; cbn [weight] in Hz; try discriminate. cbn [step] in Es. inversion Es; subst. discriminate. }
+      split; [lia | exists c; exact Hc].
+    - destruct (IH w' e ltac:(lia) ltac:(lia) Hin) as [[A B] C].
+      split; [lia | exact C].
   Qed.
 
   (* every create of a run gets a reference different from all the others,
-     whatever the subscriber identities and consumer names *)
+     whatever the subscriber identities and consumer names, as long as the
+     64-bit record counter does not wrap *)
   Theorem references_unique : forall ops w,
-    0 <= w_lrsn w -> w_lrsn w + Z.of_nat (length ops) < 2 ^ 64 ->
+    0 <= w_lrsn w -> w_lrsn w + span ops < 2 ^ 64 ->
     NoDup (map fst (created w ops)).
   Proof.
     induction ops as [|o ops IH]; intros w H0 Hb; [constructor|].
-    cbn [created]. cbn [length] in Hb.
+    cbn [created]. cbn [span fold_right] in Hb. fold (span ops) in Hb.
+    pose proof (span_nonneg ops) as Hsp. pose proof (weight_nonneg o) as Hw.
     destruct (step rsize usize w o) as [w' rs] eqn:Es.
-    pose proof (step_lrsn w o) as Hs. rewrite Es in Hs. cbn [fst snd] in Hs.
-    assert (Hl : w_lrsn w <= w_lrsn w' <= w_lrsn w + 1).
-    { destruct Hs as [Hs|[Hs _]]; rewrite Hs; unfold u64; lia. }
+    pose proof (step_advance w o w' rs Es H0 ltac:(lia)) as Hl.
     destruct (rs_status rs =? 201) eqn:E201.
     - cbn [app map fst]. constructor; [|apply IH; lia].
-      destruct (created_head_counter o w w' rs Es ltac:(lia) ltac:(lia)) as [Hn [c Hc]].
+      assert (Hlt : w_lrsn w < 2 ^ 64 - 1).
+      { destruct (Z.eq_dec (weight o) 0) as [Hz|Hz]; [|lia].
+        destruct o; cbn [weight] in Hz; try discriminate. cbn [step] in Es. inversion Es; subst. discriminate. }
+      destruct (created_head_counter o w w' rs Es ltac:(lia) ltac:(lia)) as [Hn [Hw1 [c Hc]]].
       intros Hin. apply in_map_iff in Hin. destruct Hin as [e [He Hin]].
       destruct (created_counters ops w' e ltac:(lia) ltac:(lia) Hin) as [[A B] [c' Hc']].
       rewrite Hc' in He. rewrite Hc in He. unfold session_suffix in He.
@@ -216,7 +233,7 @@ Theorem reject_no_effect rsize usize w o :
   let '(w', r) := step rsize usize w o in
   400 <= rs_status r < 500 -> w' = w.
 Proof.
-  destruct o as [r|ref r|ref r|supi rg|supi rg a]; cbn [step].
+  destruct o as [r|ref r|ref r|supi rg|supi rg a|n]; cbn [step].
   - unfold do_create. destruct (r_consumer r) as [c|]; [|intros; reflexivity].
     destruct (match find_ue (w_ues w) (r_supi r) with Some _ => false | None => negb (r_supi_ok r) end);
       [intros; reflexivity|]. cbn [rs_status]. lia.
@@ -231,6 +248,7 @@ Proof.
     destruct (charge_request (w_db w) u r) as [[[d' u1] muis] partial]. cbn [rs_status]. lia.
   - unfold do_recharge. destruct (find_ue (w_ues w) supi); cbn [rs_status]; lia.
   - unfold do_credit. destruct (lookup (w_db w) supi rg); cbn [rs_status]; lia.
+  - cbn [rs_status]. lia.
 Qed.
 
 (* ---------- C12: contract of the successful paths ---------- *)
@@ -251,7 +269,7 @@ Lemma recharge_contract rsize usize w supi rg u :
   (mkWorld (w_db w)
      (put_ue (w_ues w) (mkUe (u_supi u) (u_rgs u) (u_reserved u) (aset (u_mode u) rg 1) (u_cost u) (u_reqnum u)
                              (u_notify u) (u_cdr u) (u_records u) (u_sess u)))
-     (w_lrsn w) (w_files w) (w_notes w ++ [(u_notify u, supi, rg)]),
+     (w_lrsn w) (w_files w) (if u_notify u <? 0 then w_notes w else w_notes w ++ [(u_notify u, supi, rg)]),
    mkResp 204 [] (-1) []).
 Proof. intros H. cbn [step]. unfold do_recharge. rewrite H. reflexivity. Qed.
 
@@ -259,7 +277,7 @@ Proof. intros H. cbn [step]. unfold do_recharge. rewrite H. reflexivity. Qed.
 Theorem status_range rsize usize w o :
   In (rs_status (snd (step rsize usize w o))) [0; 200; 201; 204; 400; 404].
 Proof.
-  destruct o as [r|ref r|ref r|supi rg|supi rg a]; cbn [step].
+  destruct o as [r|ref r|ref r|supi rg|supi rg a|n]; cbn [step].
   - unfold do_create. destruct (r_consumer r); [|cbn; tauto].
     destruct (match find_ue (w_ues w) (r_supi r) with Some _ => false | None => negb (r_supi_ok r) end); cbn; tauto.
   - unfold do_update. destruct (find_ue (w_ues w) (r_supi r)) as [u|]; [|cbn; tauto].
@@ -273,6 +291,7 @@ Proof.
     destruct (charge_request (w_db w) u r) as [[[d' u1] muis] partial]. cbn; tauto.
   - unfold do_recharge. destruct (find_ue (w_ues w) supi); cbn; tauto.
   - unfold do_credit. destruct (lookup (w_db w) supi rg); cbn; tauto.
+  - cbn; tauto.
 Qed.
 
 (* ---------- C02: where the usage of a request goes ---------- *)
